@@ -72,9 +72,10 @@ class PyFileWriter(AbstractWriter):
         tfile = None
 
         try:
+            octets = encode(data)
+
             fd, tfile = tempfile.mkstemp(dir=self._path)
 
-            octets = encode(data)
             while octets:
                 # os.write() may write less than asked for
                 written = os.write(fd, octets)
